@@ -101,6 +101,8 @@ class State:
         self.attrs = attrs_of(x)
 
     def unchanged(self, where):
+        if isinstance(self.x, Tensor) and self.x.ranks:
+            observe.rank_consistency(self.x, where)      # owners / rank lists of the operand still mirror its tree
         if observe.snap(self.root) != self.snap:
             raise Violation("operand-modified", f"{where}: tree changed {self.snap} -> {observe.snap(self.root)}")
         if isinstance(self.x, Tensor) and observe.rank_lists(self.x) != self.ranks:
